@@ -4,7 +4,15 @@
 package router
 
 //@ type Router
-//@   invariant wired [C13]: nonnil(self.instance) && self.table != nil
+//@   invariant wired [C13]: nonnil(self.instance) && self.table != nil && self.ErrorPing != nil && self.HelloPing != nil
+//@   invariant traffic-needs-tun [C13,C20]: self.handleTraffic.v != 0 ==> self.instance.TunDevice() != nil
+
+// Sending an error ping builds, seals and routes a new frame: it is assumed not to touch the frame being handled
+// nor the configuration (its body is verified separately only for the absence of panics).
+//@ func ErrorPingHandler.sendError
+//@   option trusted
+//@   modifies nothing
+//@   havoc F|state., F|peering., F|switchr., F|m.RoutingTable, MP|
 
 //@ type AnnouncePingHandler
 //@   invariant wired [C13]: self.r != nil
@@ -22,3 +30,23 @@ package router
 //@   requires nonnil(f) && f.data != nil
 //@   modifies nothing
 //@   ensures header [C07,C13]: err == nil ==> hdr != nil && dataOffset >= 2 && dataOffset <= f.authIndex - f.messageIndex - 2
+
+// ---- traffic policy (C06) and frame ownership (C13) -----------------------------------------------
+//@ func Router.outboundAllowedTo
+//@   modifies nothing
+//@   ensures isolation [C06]: result == (!r.instance.Config().Router.Isolate || has(r.instance.Config().FriendsByIP, dst))
+
+// The verdict for a connection seen for the first time is the configured policy (a cached verdict is returned unchanged).
+//@ func Router.checkPolicy
+//@   requires w != nil
+//@   callsite config.Config.CheckInboundTrafficPolicy packet-fields [C06]: arg1 == connKey.protocol && arg2 == connKey.localPort && arg3 == connKey.remoteIP && inbound
+//@   callsite Router.outboundAllowedTo packet-destination [C06]: arg1 == connKey.remoteIP && !inbound
+
+// A packet from the mesh reaches the tun device only if the frame unsealed under the sender's session, the inner
+// addresses equal the frame's, the destination is not internal and the policy admits it.
+// On an error return the frame still belongs to the caller (frameHandler releases it): it is never released twice.
+//@ func Router.handleIncomingTraffic
+//@   requires w != nil && nonnil(f) && f.data != nil && f.builder != nil && f.dblReturnCheck == 0
+//@   callsite chan-send only-admitted-packets [C06]: f.unsealedBy == session && session != nil && src == f.SrcIP() && dst == f.DstIP() && !uf("prefixContains", bool, m.InternalPrefix, dst) && status == connStatusAllowed
+//@   callsite Router.checkPolicy inbound-with-packet-fields [C06]: arg2 && arg3.localIP == dst && arg3.remoteIP == src && arg3.protocol == protocol && arg3.localPort == dstPort
+//@   ensures error-leaves-frame-to-caller [C13]: result != nil ==> f.dblReturnCheck == 0
